@@ -31,6 +31,11 @@ def run_check(prop: str, tier: str, root: str, only_key=None, quiet=False) -> in
     ctx.undecided = list(getattr(mod, "UNDECIDED", []))
     ctx.trusted = list(getattr(mod, "TRUSTED", []))
     mod.run(ctx)
+    show = os.environ.get("TTVERIF_SHOW")
+    if show:
+      for o in ctx.obs:
+        if show in ("all", o.rule):
+          print("  ", "ok " if o.ok else "BAD", o.rule, "|", o.key, "|", o.where, "|", o.detail)
     if not ctx.obs:
       raise AnalysisError("no rule instance was evaluated")
     return finish(ctx, mod.EXPLANATION, mod.RULE_TEXT)
